@@ -167,6 +167,21 @@ def main():
             violations = keep
             for v in undecided:
                 run.tool_errors.append('undecided: %s fails in %s, which calls (or is) a function without contract (%s)' % (v.oid, v.addr, ', '.join(sorted(names))))
+    # Trusted / external functions are assumed, not proved: if the source text of one that this property leans on
+    # has changed since its contract was written, the assumption is no longer backed by an audit -> undecided.
+    try:
+        base_sha = json.load(open(os.path.join(VERIF, 'contracts', 'baseline.json'))).get('unverified_source_sha', {})
+    except Exception:
+        base_sha = {}
+    changed_trusted = []
+    for f in res.fns:
+        if f.status in ('trusted', 'external') and f.addr in base_sha and getattr(f, 'src_sha', '') != base_sha[f.addr]:
+            relevant = prop in f.tags or any(prop in t for (a_, b_, o_, t, k_, ad) in res.clause_ranges if ad == f.addr) \
+                or any(f.addr.split('::')[-1] in x or f.addr.split('::')[-2] in x for x in P.get('trusted', []))
+            if relevant:
+                changed_trusted.append(f.addr)
+    for a_ in changed_trusted:
+        run.tool_errors.append('undecided: the unverified (trusted/external) function %s changed since its contract was assumed; its contract must be re-audited' % a_)
     # ownership conditions checked on the source text (@holds)
     synt = [x for x in getattr(res, 'syntactic', []) if prop in x['tags']]
     for x in synt:
@@ -251,6 +266,7 @@ def main():
         'vacuity_canary': canary,
         'solver_seed_stability': seeds_ok,
         'unattributed_failures': [f.oid for f in unattributed],
+        'changed_unverified_functions': changed_trusted,
         'exhaustive': False,
     }
     ev = {
